@@ -280,6 +280,10 @@ def check(cfg, argv):
     if tier not in ("quick", "thorough"):
         tier = "quick"
     seed = int(os.environ.get("VERIF_SEED", "1") or "1")
+    # one run of a property's check at a time (the work directory and the replays are per property);
+    # held until the process exits
+    global _PROP_LOCK
+    _PROP_LOCK = Lock("check-" + prop).__enter__()
     d = os.path.join(WORK, prop)
     shutil.rmtree(d, ignore_errors=True)
     os.makedirs(d)
